@@ -1,5 +1,6 @@
 import TorrentVerif.Proofs.CreateWF
 import TorrentVerif.Proofs.EditCanon
+import TorrentVerif.Proofs.CreatorsCanon
 /-
   C06 — every metafile written is canonical, structurally valid bencoding.
   Property theorems only; helper lemmas live in `Proofs/`.
@@ -274,5 +275,118 @@ example : ∃ mf', editMany exMeta [exReq, { comment := .cleared, urlList := .li
       simp only [List.mem_cons, List.not_mem_nil, or_false] at hr
       rcases hr with e | e | e <;> subst e <;> exact ⟨_, rfl⟩)
   exact ⟨mf', h, edits_canonical .v1 _ exMeta mf' (by decide) (by decide) h⟩
+
+end TorrentVerif.Props.C06
+
+/-! ### the real creators (`Model/Creators.lean`): nothing is assumed of the payload parts
+
+  The hypotheses of `create_canonical_*` / `create_wellformed_*` about the file list, the file
+  tree, the piece string and the piece layers are discharged by the real directory walks and
+  hashers. `r` is the value handed to `pyben.dump`, `b` the bytes written. -/
+namespace TorrentVerif.Props.C06
+open TorrentVerif Impl Spec TorrentVerif.Toy TorrentVerif.Ex.G7
+
+/-- v1 creator (`TorrentFile`, with or without `align`), any content tree, any options, any
+    enumeration order: whenever it writes a metafile, the value is canonical, the bytes are its
+    encoding and are read back unchanged by the strict decoder, and it has the structure v1
+    requires (the v1 hash has 20-byte digests, as SHA-1 has). -/
+theorem create_canonical_real_v1 (o : CreateOpts) (align : Bool) (H1 : Bytes → Bytes)
+    (h20 : ∀ x, (H1 x).length = 20)
+    (enum : List (List (Bytes × Bytes)) → List (List (Bytes × Bytes))) (pre : Bytes) (t : Node)
+    (r : BVal) (b : Bytes) (h : createV1 o align H1 enum pre t = some (r, b)) :
+    Canonical r = true ∧ b = encode r ∧ strictDecode b = some r ∧ WellFormed .v1 r = true := by
+  obtain ⟨content, l, hs', hb, hc, hl⟩ := createV1_sortMeta o align H1 enum pre t r b h
+  obtain ⟨r', hr', hcan⟩ := v1_canon o content ((l.map H1).flatten) hc
+  rw [hs'] at hr'; cases hr'
+  refine ⟨hcan, hb, by rw [hb]; exact canonical_roundtrip r hcan, ?_⟩
+  exact v1_wf o content _ r (flatten_map_mod H1 20 h20 l) hl hs'
+
+/-- met by: the example tree, piece-aligned, enumerated backwards; the creator succeeds -/
+example : ∃ r b, createV1 exOpts true toyH20 List.reverse [114] exTree = some (r, b) ∧
+    Canonical r = true ∧ b = encode r ∧ strictDecode b = some r ∧ WellFormed .v1 r = true := by
+  obtain ⟨r, b, h⟩ := createV1_dir_some exOpts true toyH20 List.reverse List.reverse_perm [114] _
+    exTree_wellNamed (exTree_sorted_ne [114])
+  exact ⟨r, b, h, create_canonical_real_v1 exOpts true toyH20 (by intro x; simp [toyH20])
+    List.reverse [114] exTree r b h⟩
+
+/-- v2 creators (`TorrentFileV2`, `TorrentAssembler` in v2 mode), any content tree whose entry
+    names are non-empty, `/`-free and distinct among siblings, any options, any enumeration
+    order: what is written is canonical, strictly decodable to the same value, and has the
+    structure v2 requires (hash and zero-hash size 32, piece length `2^j · B`). The piece
+    layers may contain equal roots and arrive in traversal order; the file tree comes from the
+    real traversal. -/
+theorem create_canonical_real_v2 (o : CreateOpts) (H H1 : Bytes → Bytes) (B hs j : Nat)
+    (hB : 0 < B) (hpl : o.pieceLength = 2 ^ j * B) (hs32 : hs = 32) (hH : ∀ x, (H x).length = 32)
+    (enum : List (Bytes × FTree) → List (Bytes × FTree)) (henum : ∀ l, (enum l).Perm l)
+    (t : Node) (hwn : WellNamed t) (r : BVal) (b : Bytes)
+    (h : createV2Class o H B hs enum t = some (r, b) ∨
+         createAsm false o H H1 B hs enum t = some (r, b)) :
+    Canonical r = true ∧ b = encode r ∧ strictDecode b = some r ∧ WellFormed .v2 r = true := by
+  subst hs32
+  have h' : createV2Class o H B 32 enum t = some (r, b) := by
+    rcases h with h | h
+    · exact h
+    · rwa [createAsm_false_eq o H H1 B 32 (2 ^ j) hB (Nat.two_pow_pos j) hpl] at h
+  unfold createV2Class at h'
+  simp only [pl_div o B (2 ^ j) hB hpl] at h'
+  obtain ⟨hs', hb⟩ := written_some _ r b h'
+  obtain ⟨r', hr', hcan⟩ := v2_canon o (singleLen t) _ (layerItems (fhV2 H B 32 (2 ^ j))
+    o.pieceLength (ftreeFiles [] (traverse enum t)))
+    (canon_traverse (fhV2 H B 32 (2 ^ j)) enum henum t hwn)
+  rw [hs'] at hr'; cases hr'
+  refine ⟨hcan, hb, by rw [hb]; exact canonical_roundtrip r hcan, ?_⟩
+  refine v2_wf o (singleLen t) _ _ r ?_ ?_ hs'
+  · intro hsingle
+    cases t with
+    | file d => simp [singleLen] at hsingle
+    | dir es => exact isDict_traverse_dir _ enum es
+  · rw [hpl]; exact layerItems_mod H B 32 j hB hH _
+
+/-- met by: the example tree enumerated backwards, a toy hash with 32-byte digests -/
+example : ∃ r b, createAsm false exOpts (fun x => List.replicate 32 (toyH x).length.toUInt8) toyH1 2 32
+      List.reverse exTree = some (r, b) ∧
+    Canonical r = true ∧ b = encode r ∧ strictDecode b = some r ∧ WellFormed .v2 r = true := by
+  obtain ⟨r, b, h⟩ := createAsm_false_some exOpts (fun x => List.replicate 32 (toyH x).length.toUInt8)
+    toyH1 2 32 2 (by decide) (by decide) rfl List.reverse exTree
+  exact ⟨r, b, h, create_canonical_real_v2 exOpts _ toyH1 2 32 1 (by decide) rfl rfl (by simp)
+    List.reverse List.reverse_perm exTree exTree_wellNamed r b (Or.inr h)⟩
+
+/-- hybrid creators (`TorrentFileHybrid`, `TorrentAssembler` in hybrid mode): the same, with
+    everything v1 requires and everything v2 requires (20-byte v1 digests, 32-byte v2 hashes). -/
+theorem create_canonical_real_hybrid (o : CreateOpts) (H H1 : Bytes → Bytes) (B hs j : Nat)
+    (hB : 0 < B) (hpl : o.pieceLength = 2 ^ j * B) (hs32 : hs = 32) (hH : ∀ x, (H x).length = 32)
+    (h20 : ∀ x, (H1 x).length = 20)
+    (enum : List (Bytes × FTree) → List (Bytes × FTree)) (henum : ∀ l, (enum l).Perm l)
+    (t : Node) (hwn : WellNamed t) (r : BVal) (b : Bytes)
+    (h : createHybridClass o H H1 B hs enum t = some (r, b) ∨
+         createAsm true o H H1 B hs enum t = some (r, b)) :
+    Canonical r = true ∧ b = encode r ∧ strictDecode b = some r ∧ WellFormed .hybrid r = true := by
+  subst hs32
+  have h' : createHybridClass o H H1 B 32 enum t = some (r, b) := by
+    rcases h with h | h
+    · exact h
+    · rwa [createAsm_true_eq o H H1 B 32 (2 ^ j) hB (Nat.two_pow_pos j) hpl h20] at h
+  obtain ⟨content, l, hs', hb, hc, hl, hdir⟩ :=
+    createHybridClass_sortMeta o H H1 B 32 (2 ^ j) hB (Nat.two_pow_pos j) hpl enum t r b h'
+  obtain ⟨r', hr', hcan⟩ := hybrid_canon o content _ ((l.map H1).flatten) _
+    (canon_traverse (fhHybrid H H1 B 32 (2 ^ j)) enum henum t hwn) hc
+  rw [hs'] at hr'; cases hr'
+  refine ⟨hcan, hb, by rw [hb]; exact canonical_roundtrip r hcan, ?_⟩
+  refine hybrid_wf o content _ _ _ r (flatten_map_mod H1 20 h20 l) hl ?_ ?_ hs'
+  · intro hn
+    obtain ⟨es, rfl⟩ := hdir hn
+    exact isDict_traverse_dir _ enum es
+  · rw [hpl]; exact layerItems_hybrid_mod H H1 B 32 j hB hH _
+
+/-- met by (hypotheses other than the digest sizes, which no 1-byte toy hash has): the example
+    tree and the example file; stated for hash functions with the right digest sizes -/
+example (H H1 : Bytes → Bytes) (hH : ∀ x, (H x).length = 32) (h20 : ∀ x, (H1 x).length = 20) :
+    ∃ r b, createHybridClass exOpts H H1 2 32 id exTree = some (r, b) ∧
+      Canonical r = true ∧ b = encode r ∧ strictDecode b = some r ∧ WellFormed .hybrid r = true := by
+  obtain ⟨r, b, h⟩ := createHybridClass_some exOpts H H1 2 32 2 (by decide) (by decide) rfl id exTree
+  exact ⟨r, b, h, create_canonical_real_hybrid exOpts H H1 2 32 1 (by decide) rfl rfl hH h20 id
+    (fun _ => .refl _) exTree exTree_wellNamed r b (Or.inl h)⟩
+
+example : ∃ H : Bytes → Bytes, ∀ x, (H x).length = 32 := ⟨fun _ => List.replicate 32 0, by simp⟩
 
 end TorrentVerif.Props.C06
